@@ -118,6 +118,9 @@ add("C12",
 
 # ---------------------------------------------------------------- C16
 add("C16",
+    V("alternate-entries-named-after-their-spelling", "C16", [("dateparser/timezone_parser.py", "                    search_regex_parts.append(re.sub(replace, replacewith, tz_obj[0]))\n                    yield get_offset(tz_obj, regex, repl=replace, replw=replacewith)\n", "                    alternate = re.sub(replace, replacewith, tz_obj[0])\n                    search_regex_parts.append(alternate)\n                    yield get_offset((alternate, tz_obj[1]), regex, repl=replace, replw=replacewith)\n")], "fire", "C16.R2", note="seeded changes C16-3 / C19-3 / C19-5"),
+    V("rewrite-rule-applied-once", "C16", [("dateparser/timezone_parser.py", "                    re.sub(repl, replw, regex % tz_obj[0]), re.IGNORECASE\n", "                    re.sub(repl, replw, regex % tz_obj[0], count=1), re.IGNORECASE\n")], "fire", "C16.R2", note="seeded changes C11-6 / C16-5"),
+    V("twin-alternate-spelling-in-a-local", "C16", [("dateparser/timezone_parser.py", "                    search_regex_parts.append(re.sub(replace, replacewith, tz_obj[0]))\n                    yield get_offset(tz_obj, regex, repl=replace, replw=replacewith)\n", "                    alternate = re.sub(replace, replacewith, tz_obj[0])\n                    search_regex_parts.append(alternate)\n                    yield get_offset(tz_obj, regex, repl=replace, replw=replacewith)\n")], "silent"),
     V("module-edited-by-hand", "C16", [("dateparser/data/date_translation_data/fr.py", '"janvier"', '"janvierx"')], "fire", "C16.R1"),
     V("yaml-edited-without-regenerating", "C16", [("dateparser_data/supplementary_language_data/date_translation_data/de.yaml", "    - Mon\n", "    - Mon\n    - Mond\n")], "fire", "C16.R1"),
     V("timezones-edited-without-cache", "C16", [("dateparser/timezones.py", '("ACDT", 37800)', '("ACDT", 37801)')], "fire", "C16.R2"),
